@@ -162,7 +162,11 @@ Definition end_block_clauses (c : chk) (s s' : state) (b : obs) : list string :=
       else
         (* nothing wrong with the individual entries and still refused: the set would be empty *)
         if (Nat.eqb (List.length removed) (List.length cs)) && forallb (fun u => (snd u =? 0)%Z) ups
-        then ["empty-set:" ++ match ck_last_rm c with Some v => label_in c (ck_rm_by c) v | None => "none" end]
+        then ["empty-set:" ++ match ck_last_rm c with
+                              | Some v => match lookup v vals with
+                                          | Some r => label_of_key c (ck_rm_by c) vals (v_cons r)
+                                          | None => label_in c (ck_rm_by c) v end
+                              | None => "none" end]
         else ["not-applied"]
     | l => l
     end
